@@ -124,12 +124,14 @@ class SuperNetCombiner(nn.Module):
         :return: a dictionary containing the optimized layer hyperparameter values
         :rtype: Dict[str, Any]
         """
+        # report the (noise-free) normalized coefficients: re-sampling here would, with Gumbel
+        # sampling in training mode, report a random branch that export() does not select
         with torch.no_grad():
-            self.sample_alpha()
+            theta_alpha = F.softmax(self.alpha / self.softmax_temperature, dim=0)
         res = {"supernet_branches": {}}
         for i in range(self.n_branches):
             res["supernet_branches"][f"branch_{i}"] = {}
-            res["supernet_branches"][f"branch_{i}"]['alpha'] = self.theta_alpha[i].item()
+            res["supernet_branches"][f"branch_{i}"]['alpha'] = theta_alpha[i].item()
         return res
 
     @property
